@@ -322,9 +322,19 @@ func (ch *channel) receivedSegData(rsd recSegData) {
 				log.Error("Failed to generate segment times", "err", err)
 			}
 		}
-		// Remove old segments after the MPD has been updated, so that it does not list removed segments
+		// Remove old segments after the MPD has been updated, so that it does not list removed segments.
+		// If the MPD could not be regenerated, since the tracks have no number in common, the segments to be
+		// removed are dropped from it. The latest number stays in the MPD and in storage until there is a new one.
 		if ch.maxNrBufSegs > 0 && rsd.seqNr >= ch.maxNrBufSegs {
-			removeOldSegments(log, filepath.Join(ch.dir, name), rsd.seqNr-ch.maxNrBufSegs)
+			lastToRemove := rsd.seqNr - ch.maxNrBufSegs
+			err = ch.segTimesGen.dropOldFromMPD(log, lastToRemove+1)
+			if err != nil {
+				log.Error("Failed to drop old segments from MPD", "err", err)
+			}
+			firstListed, lastListed, isListed := ch.segTimesGen.listedRange()
+			removeOldSegments(log, filepath.Join(ch.dir, name), lastToRemove, func(seqNr uint32) bool {
+				return isListed && firstListed <= seqNr && seqNr <= lastListed
+			})
 		}
 
 		if ch.masterSegDuration == 0 && ch.isMasterTrack(name) {
